@@ -1,6 +1,6 @@
 SPECIFICATION Spec
 CONSTANTS
-  Days = {0, 1, 2}
+  Days <- MCDays
   Secs = {0, 1, 43200, 86399}
   Micros = {0, 1, 999999}
   MaxDepth = 3
